@@ -207,6 +207,8 @@ pub struct Ctx {
     pub yield_hook: Mutex<Option<Arc<dyn Fn(YieldAt) + Send + Sync>>>,
     /// bound on executions per case (guards against runaway loops without a wall clock)
     pub exec_budget: AtomicUsize,
+    /// also log `WillCheckCancellation` events (coop engine, C21)
+    pub log_check_cancel: std::sync::atomic::AtomicBool,
 }
 
 #[derive(Clone, Copy, Debug, PartialEq, Eq)]
@@ -271,6 +273,8 @@ impl Ctx {
         });
         if e != Ev::WillCheckCancel {
             self.push(Rec::Ev(tid, e));
+        } else if self.log_check_cancel.load(Ordering::Relaxed) {
+            self.push(Rec::CheckCancel(tid));
         }
         fault::tick(Site::Callback);
         if let Some(at) = at {
@@ -779,6 +783,7 @@ pub fn new_ctx(prog: Arc<Program>, cells: Vec<u32>) -> Arc<Ctx> {
         live,
         yield_hook: Mutex::new(None),
         exec_budget: AtomicUsize::new(EXEC_BUDGET),
+        log_check_cancel: std::sync::atomic::AtomicBool::new(false),
     })
 }
 
